@@ -136,6 +136,22 @@ def judge_chain(ops_in: list[Any], result: Any, scalars: list[float], tags: list
             if got_len != expected:
                 LOG.violation('C07', mon, f'vanishing/{tags[0].split("/")[0]}',
                               f'the pattern must disappear ({len(ops_in)} -> {expected} operands) but {got_len} remain', **ctx)
+    # the block-wise products of merged block operators are chains themselves: flattened (a product of a product is the same
+    # product), they must not hold a documented pattern either
+    def flat(o: Any) -> list[Any]:
+        if name(o) == 'CompositionOperator':
+            return [x for p in o.operands for x in flat(p)]
+        return [o]
+    if any(t.startswith('blocks_triple') for t in tags):
+        for o in ops:
+            if is_block(o):
+                for blk in jax.tree.leaves(o.blocks, is_leaf=ISOP):
+                    chain_ = flat(blk)
+                    for l_, r_ in zip(chain_[:-1], chain_[1:]):
+                        w_ = residue(l_, r_)
+                        if w_:
+                            LOG.violation('C07', mon, f'residue/{w_}/inside-a-merged-block', f'pattern {w_} left inside a block-wise product', **ctx)
+                            return
     for pos, (l, r) in enumerate(zip(ops[:-1], ops[1:])):
         what = residue(l, r)
         if what:
